@@ -453,7 +453,7 @@ macro_rules! builder_args_proof {
         /// position, the boundary times are exactly the positions of those sorted keyframes
         /// (same index), and no keyframe is lost or duplicated.
         #[kani::proof]
-        #[kani::unwind(10)]
+        #[kani::unwind(12)]
         pub(crate) fn $name() {
             let mut cfg: TimelineConfiguration<u8> = TimelineConfiguration::default();
             let mut times = [0.0f32; $n];
@@ -500,6 +500,8 @@ builder_args_proof!(builder_args_n3, 3);
 builder_args_proof!(builder_args_n4, 4);
 builder_args_proof!(builder_args_n5, 5);
 builder_args_proof!(builder_args_n7, 7);
+builder_args_proof!(builder_args_n8, 8);
+builder_args_proof!(builder_args_n9, 9);
 
 /// Canary: must FAIL.
 #[kani::proof]
